@@ -17,6 +17,7 @@ pub mod twin;
 pub mod bitsrep;
 pub mod codec;
 pub mod cursor;
+pub mod pack;
 
 // ------------------------------------------------------------------ PRNG (splitmix64)
 #[derive(Clone)]
